@@ -38,19 +38,9 @@ def indexOfOutput (outs : List OutputBlock) (x : String) : Option Nat :=
 def lastWith {α β} (l : List α) (f : α → Option β) : Option β :=
   l.foldl (fun acc a => match f a with | some b => some b | none => acc) none
 
-/-- `Scope::resolve` through the layers `TxDef::analyze` builds: outputs, inputs and locals (the
-innermost, later insertions overriding earlier ones), then parameters and `fees`, then the
+/-- `Scope::resolve` above the transaction's own block scope: parameters and `fees`, then the
 program's definitions, then the built-in functions. -/
-def resolve (s : Scope) (x : String) : Option Sym :=
-  match indexOfOutput s.tx.outputs x with
-  | some i => some (.output i)
-  | none =>
-  match lastWith s.tx.inputs (fun b => if b.name = x then some b else none) with
-  | some b => some (.input b)
-  | none =>
-  match lastWith s.tx.locals (fun l => if l.1 = x then some l.2 else none) with
-  | some e => some (.localE e)
-  | none =>
+def resolveOuter (s : Scope) (x : String) : Option Sym :=
   match lastWith s.tx.params (fun p => if p.1 = x then some p.2 else none) with
   | some ty => some (.param x ty)
   | none =>
@@ -74,19 +64,44 @@ def resolve (s : Scope) (x : String) : Option Sym :=
   | none =>
   if ["min_utxo", "tip_slot", "slot_to_time", "time_to_slot"].contains x then some (.function x) else none
 
+/-- `Scope::resolve` through the layers `TxDef::analyze` builds: outputs, inputs and locals (the
+innermost, later insertions overriding earlier ones), then everything above. -/
+def resolve (s : Scope) (x : String) : Option Sym :=
+  match indexOfOutput s.tx.outputs x with
+  | some i => some (.output i)
+  | none =>
+  match lastWith s.tx.inputs (fun b => if b.name = x then some b else none) with
+  | some b => some (.input b)
+  | none =>
+  match lastWith s.tx.locals (fun l => if l.1 = x then some l.2 else none) with
+  | some e => some (.localE e)
+  | none => resolveOuter s x
+
 def lowerTy : LTy → Ty
   | .int => .int | .bool => .bool | .bytes => .bytes | .address => .address | .utxoRef => .utxoRef
   | .anyAsset => .anyAsset | .list _ => .list | .custom n => .custom n
 
+/-- `lowering::Context` (which reading of an input or policy name the position asks for), plus how
+many more symbols may be followed from here.
+
+`TxDef::analyze` runs nine passes and a final one; a symbol attached to an identifier holds a
+*clone* of the local's expression (or of the input block) as annotated by the previous pass, so from
+a node of the transaction itself `symbolDepth` symbols can be followed, and the identifiers of the
+expression reached by the ninth carry no symbol at all: lowering them is `MissingAnalyzePhase`. -/
 structure Ctx where
   asset : Bool := false
   datum : Bool := false
   address : Bool := false
+  lvl : Nat := 9
   deriving Inhabited
 
-def Ctx.enterAsset (_ : Ctx) : Ctx := { asset := true }
-def Ctx.enterDatum (_ : Ctx) : Ctx := { datum := true }
-def Ctx.enterAddress (_ : Ctx) : Ctx := { address := true }
+def symbolDepth : Nat := 9
+
+def Ctx.enterAsset (c : Ctx) : Ctx := { asset := true, lvl := c.lvl }
+def Ctx.enterDatum (c : Ctx) : Ctx := { datum := true, lvl := c.lvl }
+def Ctx.enterAddress (c : Ctx) : Ctx := { address := true, lvl := c.lvl }
+/-- Following a symbol into the clone it holds. -/
+def Ctx.down (c : Ctx) : Ctx := { c with lvl := c.lvl - 1 }
 
 def lerr {α} (e : String) : Outcome α := .err ("lower:" ++ e)
 
@@ -145,12 +160,15 @@ def lowerE (s : Scope) : Nat → Ctx → LExpr → Outcome Expr
        | some b => .ok (.leaf (.utxoRefs [{ txid := b, index := i % 2^32 }]))
        | none => lerr "utxo-ref")
     | .leaf (.id x) =>
+      -- the expression reached through the last symbol is the clone made before the first pass: its
+      -- identifiers carry no symbol at all
+      if ctx.lvl = 0 then lerr ("MissingAnalyzePhase:" ++ x) else
       (match resolve s x with
        | none => lerr ("MissingAnalyzePhase:" ++ x)
        | some (.param n ty) => .ok (paramValue n (lowerTy ty))
        | some (.envVar n ty) => .ok (paramValue n (lowerTy ty))
        | some (.party n) => .ok (paramValue n .address)
-       | some (.localE le) => lowerE s fuel ctx le
+       | some (.localE le) => lowerE s fuel ctx.down le
        | some .fees => .ok (.node (.param .expectFees) [])
        | some (.output i) => .ok (.leaf (.number i))
        | some (.policy _ h) =>
@@ -160,7 +178,7 @@ def lowerE (s : Scope) : Nat → Ctx → LExpr → Outcome Expr
             else .ok (.leaf (.hash hb))
           | none => lerr "DecodeHexError")
        | some (.input b) => do
-         let q ← lowerInput s fuel ctx b
+         let q ← lowerInput s fuel ctx.down b
          if ctx.asset then .ok (.node (.coerce .intoAssets) [q])
          else if ctx.datum then .ok (.node (.coerce .intoDatum) [q])
          else .ok q
@@ -202,21 +220,25 @@ def lowerE (s : Scope) : Nat → Ctx → LExpr → Outcome Expr
     | .node .list cs => do let xs ← lowerL s fuel ctx cs; .ok (.node .list xs)
     | .node .map cs => do let xs ← lowerL s fuel ctx cs; .ok (.node .map xs)
     | .node (.record ty case names hasSpread) cs =>
+      if ctx.lvl = 0 then lerr "InvalidSymbol:type" else
       (match findType s.prog ty with
        | none => lerr "InvalidSymbol:type"
        | some td =>
          match caseIndex td (case.getD "Default") with
          | none => lerr "InvalidAst:case"
          | some (ix, cd) => do
-           let vs ← lowerL s fuel ctx cs
-           let given := names.zip vs
-           let spread : Option Expr := if hasSpread then vs.getLast? else none
+           -- only what a declared field needs is lowered: the first explicit value of that name
+           -- (further ones and undeclared names are ignored), else the spread, once per use
+           let given := names.zip cs
+           let spread : Option LExpr := if hasSpread then cs.getLast? else none
            let fields ← mapMO (fun (fi : Nat × (String × LTy)) =>
              match Lang.lookup given fi.2.1 with
-             | some v => .ok v
+             | some v => lowerE s fuel ctx v
              | none =>
                match spread with
-               | some sp => .ok (builtin .property [sp, .leaf (.number fi.1)])
+               | some sp => do
+                 let t ← lowerE s fuel ctx sp
+                 .ok (builtin .property [t, .leaf (.number fi.1)])
                | none => lerr "MissingRequiredField") ((List.range cd.fields.length).zip cd.fields)
            .ok (.node (.struct ix) fields))
     | .node .anyAsset [p, n, a] => do
@@ -238,6 +260,7 @@ def lowerE (s : Scope) : Nat → Ctx → LExpr → Outcome Expr
         (match args with
          | [a] => do let x ← lowerE s fuel ctx a; .ok (.node (.compiler .computeTimeToSlot) [x])
          | _ => lerr "InvalidAst:arity")
+      else if ctx.lvl = 0 then lerr "InvalidAst:unknown-function"
       else
         (match resolve s f with
          | some (.asset p n) =>
